@@ -297,6 +297,40 @@ def gen_livermore(r):
     # room for relaxation products (count = 1 + max_secondaries) in most cases
     if r.random() < 0.8:
         c.p[4], c.p[5] = 0.0, 64.0
+    if v > 0 and r.random() < 0.6:
+        # the SAME element in two materials with per-material production cuts: AtomicRelaxationParams records per
+        # element the minimum of each cut over the materials containing it and sizes the allocation (max_secondary)
+        # from it.  The other material's (e-, gamma) cuts relate to this one's in all four ways (lower e- only, lower
+        # gamma only, both, none; mostly the mixed ones), the interaction takes place in material 0 or 1 (mostly the one
+        # processed last); photon above the K edge so that the cascade is long; cuts of this material below the K
+        # transition energies (0.2-3.6 keV); ample storage (an under-sized allocation must show up as count >
+        # allocated, not as a heap overflow of the harness)
+        c.p[8] = float(r.choice([0, 1, 1, 1]))
+        c.p[0] = r.choice([5e-3, 4e-3, logu(r, 3.7e-3, 1.0), 0.1])
+        c.p[4], c.p[5] = 0.0, 64.0
+        if r.random() < 0.65:
+            # designed: one cut of THIS material is below the K transition energies it gates (L-shell Auger ~0.25 keV,
+            # K x rays 3.3-3.6 keV) while the other material's is above them, and the remaining cut of this material is
+            # NOT lower than the other material's (so a per-element minimum that only updates when both cuts are lower
+            # loses it); mostly Auger on, mostly the material processed last
+            if r.random() < 0.8:
+                c.p[7] = 2.0
+            c.p[8] = float(r.choice([1, 1, 1, 1, 1, 0]))
+            if r.random() < 0.6:
+                ce, oe = r.choice([1e-5, 1e-4, 2e-4]), r.choice([1e-3, 3e-3, 1e-2])
+                cg = r.choice([1e-4, 1e-3, 1e-2])
+                og = r.choice([cg, cg / 10])
+            else:
+                cg, og = r.choice([1e-4, 1e-3, 3e-3]), r.choice([5e-3, 1e-2])
+                ce = r.choice([1e-5, 1e-4, 1e-3])
+                oe = r.choice([ce, ce / 10])
+            c.p[6], c.p[10] = ce, cg
+            c.p += [oe, og]
+        else:
+            k1, k2 = r.choice([(0.1, 1.0), (1.0, 0.1), (0.1, 0.1), (10.0, 10.0), (1.0, 1.0), (10.0, 1.0), (1.0, 10.0),
+                               (10.0, 0.1), (0.1, 10.0)])
+            c.p += [min(max(ce * k1, 1e-6), 1.0), min(max(cg * k2, 1e-6), 1.0)]
+        c.tag = "livermore-two-materials"
     return c
 
 
